@@ -618,9 +618,7 @@ def run(ctx):
         old_protocol_stale_bak_clobbered_OthersUntouched=design_counterexample(ctx, 'CliFs_bak.cfg', 'OthersUntouched'),
         old_protocol_bak_is_an_input_NeverLost=design_counterexample(ctx, 'CliFs_bakinput.cfg', 'NeverLost'),
         old_protocol_alias_leaves_backup_NoLeftoverBackup=design_counterexample(ctx, 'CliFs_oldalias.cfg', 'NoLeftoverBackup'),
-        head_protocol_two_workers_race_for_bak_name_NeverLost=design_counterexample(ctx, 'CliFs_bakinput_fixed.cfg', 'NeverLost'))
-    if not quick:
-        vlib.tlc_mc(ctx, 'CliFs', 'CliFs_bakinput_fixed2.cfg', workers=2, timeout=600)      # proposed patch fixes/C20-2 holds at design level
+        bdbfbd6_protocol_two_workers_race_for_bak_name_NeverLost=design_counterexample(ctx, 'CliFs_bakinput_fixed.cfg', 'NeverLost'))
     # scenarios -> plans (TLC) -> complete scenarios
     S = scenarios(ctx)
     pinned = vlib.known_cases(PID)
@@ -752,8 +750,8 @@ def run(ctx):
         distinct_nontrivial=len(kill_points) + len(refs),
         rule='a case is one run of the real binary under strace (scenario, injection); every event of its log is one state in which '
              'TLC evaluates NeverLost/ReadOnly (evaluations = states). non-trivial = distinct (scenario, number of file-system events '
-             'before the kill) pairs actually killed, plus the reference runs. One known-defect construct is left to a pinned witness: '
-             'the backup name <src>.bak of a file minified onto itself is a source/destination of another task of the same parallel run.',
+             'before the kill) pairs actually killed, plus the reference runs. No construct is excluded; the witnesses of the fixed findings '
+             '(known/C20.ndjson, one of them a race run 400 times untraced) are ordinary regression scenarios.',
         samples=['%s: minify %s' % (s['name'], ' '.join(s['sc']['argv'])) for s in S[:6]],
         invocation_shapes=shapes, reference_runs=len(refs), injected_runs=len(jobs), runs_killed=kills_done,
         distinct_kill_points=len(kill_points), fault_runs=sum(1 for j in jobs if j[2] != 'kill'),
